@@ -107,26 +107,34 @@ def gen_expect():
     if not (len(body) == 1 and isinstance(body[0], ast.Return)):
         raise Unsupported("expected a single return")
     e = body[0].value
-    left_conj = 0
-    # np.vdot(a, X) conjugates its first argument ; np.dot / np.inner do not
-    if isinstance(e, ast.Call) and not e.keywords and len(e.args) == 2 and up(e.func) in ("np.vdot", "np.dot", "np.inner"):
-        if up(e.func) == "np.vdot":
-            left_conj = 1
-        e = ast.BinOp(left=e.args[0], op=ast.MatMult(), right=e.args[1])
+
     # flatten the @ chain (matrix products are associative)
     def flat(x):
         if isinstance(x, ast.BinOp) and isinstance(x.op, ast.MatMult):
             return flat(x.left) + flat(x.right)
         return [x]
-    fs = flat(e)
+    # np.vdot(a, b) conjugates EVERY factor of its first argument (conj(x @ M) = conj(x) @ conj(M));
+    # np.dot / np.inner conjugate nothing
+    if isinstance(e, ast.Call) and not e.keywords and len(e.args) == 2 and up(e.func) in ("np.vdot", "np.dot", "np.inner"):
+        fa, fb = flat(e.args[0]), flat(e.args[1])
+        # (for 1-d a, b : np.dot(a @ M, b) = np.dot(a, M @ b) = np.inner(...) = sum_ij a_i M_ij b_j)
+        fs = fa + fb
+        extra = [1 if up(e.func) == "np.vdot" else 0] * len(fa) + [0] * len(fb)
+    else:
+        fs = flat(e)
+        extra = [0] * len(fs)
     if len(fs) != 3:
         raise Unsupported("expected left @ matrix @ right, got %d factors" % len(fs))
     l, m, r = fs
+    left_conj, mid_conj, right_conj = extra
+    if right_conj:
+        raise Unsupported("conjugated right factor through np.vdot")
     if mentions(m, "state") or not mentions(l, "state") or not mentions(r, "state"):
         raise Unsupported("factors are not state, matrix, state")
     lk = (state_kind(l) + left_conj) % 2
     rk = state_kind(r)
     mc, mt = matrix_kind(m)
+    mc = (mc + mid_conj) % 2
     mk = {(0, 0): "MId", (1, 0): "MConj", (0, 1): "MTrans", (1, 1): "MAdj"}[(mc, mt)]
     return ("Definition gen_expect : expect_src := {| ex_left := %s; ex_mat := %s; ex_right := %s |}.\n"
             % ("SConj" if lk else "SId", mk, "SConj" if rk else "SId"))
